@@ -143,7 +143,9 @@ def register_props(PROPS, g):
                     "assumptions": ["Go's map/set iteration order is an arbitrary permutation oracle (theorems hold for all of them)",
                                     "task execution is sequential in the computed order (it is a plain loop in SpokFile.run)"],
                     "trusted_extra": ["the observed execution order of the real spok is validated with the extracted checker valid_order (C03_checker)"]}
+    # C18 is about the pool's control behaviour (finishes, result kind, no leak); which digest comes out is C04's business
     PROPS["C18"] = {"components": ["hash"], "oracle": ["C18"], "decode": None,
+                    "relevant": (lambda m: (m[2].split() or [""])[0] != (m[3].split() or [""])[0]),
                     "nontrivial": ("distinct_nontrivial", "distinct path lists with at least two entries"),
                     "rule": hash_rule + "; plus 20 lists with a file removed while the list is hashed (implementation only)",
                     "assumptions": ["data-race freedom is not expressible in the transition system; it is observed by the race-detector build only",
